@@ -41,7 +41,8 @@ def check(world) -> Dict[str, Any]:
     execs = 0
     classes_max = 0
     outcome = []
-    for ctx, g in cpworlds.graphs_for(world, ta, rank=rank):
+    # all analyses of the world first, then every graph is examined: a graph must not change because later analyses ran
+    for ctx, g in list(cpworlds.graphs_for(world, ta, rank=rank)):
         execs += 1
         nodes = g.node_list
         # attribution of every span / kernel-kernel edge of the graph
